@@ -4,6 +4,19 @@ from vlib.core import Check, ROOT
 from vlib.xh import Harness, Batch
 
 
+NAME_WITNESS = '''\
+import sys, warnings; warnings.simplefilter('ignore')
+import formulas
+P = "'[b]S'!"; NM = "'[b]'!NM"
+d = {P + 'A1': '=#DIV/0!', NM: '=%sA1' % P, P + 'E1': '=%sA1*10' % P}
+v = formulas.ExcelModel().from_dict(d).finish(complete=False).calculate(inputs={NM: 9})[P + 'E1'].value[0, 0]
+print('E1 =', v, '(90 when A1 itself is supplied)')
+if str(v) != '90.0' and v != 90:
+    print('REPRODUCED: a value supplied through a defined name does not reach an underlying cell that held an error'); sys.exit(1)
+sys.exit(0)
+'''
+
+
 def run(tier, seed):
     ck = Check('C07', tier, seed, level='exploration')
     import formulas.excel as EX, formulas.cell as CE, formulas.ranges as RG
@@ -13,6 +26,7 @@ def run(tier, seed):
               'both sides of every comparison are the real code: the model with a history vs a fresh model; a supplied value vs the same value stored as a constant')
     ck.out_of_scope('histories longer than 3 operations (statement: 8)', 'models loaded from .xlsx files', 'workbooks outside the three template families',
                     'symbolic cell VALUES (numpy / schedula cannot carry proxies)')
+    ck.check_known_witness('C07-name-over-error-cell', NAME_WITNESS)
     quick = tier == 'quick'
     src = open(os.path.join(ROOT, 'harness', 'c07_hist.py')).read()
     hs, batch = [], Batch()
